@@ -20,7 +20,8 @@ from ..common import Ctx
 THEOREMS = ["C03_zone_getters_valid", "C03_zone_getters_refuse", "C03_getter_domain_id_refuted", "C03_mix_valve_refuted", "C03_set_zone_setpoint_valid",
             "C03_set_zone_setpoint_decodes_back", "C03_log_entry_valid", "C03_log_entry_refuted", "C03_opentherm_valid", "C03_fragment_request_valid", "C03_registered",
             "C03_set_zone_mode_valid", "C03_set_dhw_mode_valid", "C03_set_dhw_mode_countdown_refuted", "C03_set_dhw_mode_temporary_without_until_refuted",
-            "C03_set_dhw_mode_idx_refuted", "C03_set_system_mode_valid", "C03_set_system_time_valid", "C03_set_zone_config_valid", "C03_mode_cmds_registered"]
+            "C03_set_dhw_mode_idx_refuted", "C03_set_system_mode_valid", "C03_set_system_time_valid", "C03_set_zone_config_valid", "C03_mode_cmds_registered",
+            "C03_set_dhw_params_valid", "C03_set_mix_valve_params_valid", "C03_put_temp_valid"]
 
 CTL = "01:145038"
 
@@ -192,6 +193,8 @@ def run(ctx: Ctx) -> None:
             if not same:
                 ctx.violation(f"decoded-value-differs:{name}:{k}", f"{name}{args}{kwargs} -> {cmd}: decoded {k}={got!r}, asked for {v!r}", {**case, "decoded": str(payload)[:300]}, "input")
     mode_commands(ctx, built, thorough)
+    param_commands(ctx, built, thorough)
+    bind_commands(ctx)
     # correspondence of the modelled builders over their whole domain
     if not built:
         ctx.obligation("correspondence:payload-builders", False, "correspondence", "model not built")
@@ -418,6 +421,146 @@ def mode_commands(ctx: Ctx, built: bool, thorough: bool) -> None:
     ctx.obligation("correspondence:mode-commands", not bad, "correspondence", f"{len(bad)} of {total} differ; first: {bad[0][:600]}" if bad else
                    f"{total} argument combinations of set_zone_mode / set_dhw_mode / set_system_mode / set_system_time / set_zone_config: payload or refusal, and the decoder's verdict and values, agree")
     ctx.extra["mode_command_cases"] = total
+
+
+def param_commands(ctx: Ctx, built: bool, thorough: bool) -> None:
+    """set_dhw_params / set_mix_valve_params / put_sensor_temp / put_dhw_temp and their decoders vs M_ParamCmd (payload or refusal, verdict, values)."""
+    import itertools  # noqa: PLC0415
+
+    from ramses_tx.command import Command  # noqa: PLC0415
+    from ramses_tx.message import Message  # noqa: PLC0415
+
+    rng = ctx.rng
+
+    def oz(x):
+        return "None" if x is None else f"(Some ({x}))"
+
+    def tz(t):
+        return [0] if t is None else ([1] if t is False else [2, round(t * 100)])
+
+    cases = []
+    for idx, ksp, ov, kd in itertools.product([0, 1, 2], [3000, 8500, 2999, 8501, rng.randrange(3001, 8500)], [0, 10, 11, -1, rng.randrange(1, 10)], [100, 1000, 99, 1001, rng.randrange(101, 1000)]):
+        cases.append(("dp", (idx, ksp, ov, kd), f"both V_W 0x10A0 sh10a0 parser_10a0 (set_dhw_params {idx} {ksp} ({ov}) {kd})"))
+    for idx, a, b, c, d in itertools.product([0, rng.randrange(1, 15), 15, 16], [0, 99, 100, rng.randrange(1, 99)], [0, 50, 51, rng.randrange(1, 50)], [0, 240, 241, rng.randrange(1, 240)], [0, 99, 100, rng.randrange(1, 99)]):
+        cases.append(("mv", (idx, a, b, c, d), f"both V_W 0x1030 sh1030 parser_1030 (set_mix_valve_params {idx} {a} {b} {c} {d} 1)"))
+    for t in [None, 0.0, 21.5, -3.0, 99.99, 127.98, -273.15, -273.16, -300.0] + [round(rng.randrange(-2000, 6000) / 100, 2) for _ in range(40 if thorough else 12)]:
+        w = None if t is None else round(t * 100) % 65536
+        cases.append(("st", (t,), f"both V_I 0x30C9 shtemp parser_temp_tail (Some (put_temp_payload {oz(w)}))"))
+        cases.append(("dt", (t,), f"both V_I 0x1260 shtemp parser_temp_tail (Some (put_temp_payload {oz(w)}))"))
+    tag = {"max_flow_setpoint": 0xC8, "min_flow_setpoint": 0xC9, "valve_run_time": 0xCA, "pump_run_time": 0xCB, "boolean_cc": 0xCC, "unknown_20": 0x20, "unknown_21": 0x21}
+    impl = []
+    for kind, a, _ in cases:
+        try:
+            if kind == "dp":
+                name, cmd = "set_dhw_params", Command.set_dhw_params(CTL, setpoint=a[1] / 100, overrun=a[2], differential=a[3] / 100, dhw_idx=a[0])
+            elif kind == "mv":
+                name, cmd = "set_mix_valve_params", Command.set_mix_valve_params(CTL, a[0], max_flow_setpoint=a[1], min_flow_setpoint=a[2], valve_run_time=a[3], pump_run_time=a[4])
+            elif kind == "st":
+                name, cmd = "put_sensor_temp", Command.put_sensor_temp("34:123456", a[0])
+            else:
+                name, cmd = "put_dhw_temp", Command.put_dhw_temp("07:123456", a[0])
+        except Exception:  # noqa: BLE001
+            impl.append((None, None))
+            ctx.case(("param-cmd", kind, repr(a)), False, f"refused:{kind}")
+            continue
+        ctx.case(("param-cmd", kind, repr(a)), True, f"built:{name}")
+        try:
+            p = Message._from_cmd(cmd).payload
+            if kind == "dp":
+                dec = [1] + tz(p["setpoint"]) + [p["overrun"]] + tz(p["differential"])
+                asked = [1, 2, a[1], a[2], 2, a[3]]
+            elif kind == "mv":
+                dec = [1] + [x for k, v in p.items() if k in tag for x in (tag[k], v)]
+                asked = [1, 0xC8, a[1], 0xC9, a[2], 0xCA, a[3], 0xCB, a[4], 0xCC, 1]
+            else:
+                dec = [1] + tz(p["temperature"])
+                asked = [1] + tz(a[0])
+            if dec != asked:
+                ctx.violation(f"decoded-value-differs:{name}:param-command", f"{name}{a} -> {cmd}: decoded {dec}, asked for {asked}", {"constructor": name, "args": repr(a), "frame": str(cmd)}, "input")
+        except Exception:  # noqa: BLE001
+            dec = [9]
+            cls = "dhw-idx-let-through" if kind == "dp" and a[0] not in (0, 1) else "out-of-domain" if kind in ("st", "dt") and a[0] is not None and a[0] < -273.15 else "in-domain"
+            ctx.violation(f"constructor-emits-undecodable-frame:{name}:{cls}", f"{name}{a} built {cmd} which the library's decoder rejects", {"constructor": name, "args": repr(a), "frame": str(cmd)}, "input")
+        impl.append((cmd.payload, dec))
+    if not built:
+        ctx.obligation("correspondence:param-commands", False, "correspondence", "model not built")
+        return
+    pre = MC_PRELUDE.replace("M_ModeCmd.", "M_ModeCmd M_ParamCmd.").replace("Definition both {R} (code : Z)", "Definition both0 {R} (code : Z)") + (
+        "Definition sh10a0 (r : result dhwp) : list Z := match r with Raise _ => [9] | Ok z => [1] ++ tz (dp_setpoint z) ++ [dp_overrun z] ++ tz (dp_differential z) end.\n"
+        "Definition sh1030 (r : result (list (Z * Z))) : list Z := match r with Raise _ => [9] | Ok l => 1 :: flat_map (fun x => [fst x; snd x]) l end.\n"
+        "Definition shtemp (r : result tempv) : list Z := match r with Raise _ => [9] | Ok t => 1 :: tz t end.\n"
+        "Definition both {R} (verb code : Z) (sh : result R -> list Z) (parse : str -> result R) (o : option str) : list (list Z) := match o with None => [[0]] | Some p => [s2z p; if payload_ok verb code p then sh (parse p) else [9]] end.\n")
+    shard = 400
+    files = {f"q{k // shard}": pre + "".join(f"Eval vm_compute in ({t}).\n" for _, _, t in cases[k:k + shard]) for k in range(0, len(cases), shard)}
+    res = common.coq_eval("C03pc", files, timeout=900)
+    bad, total = [], 0
+    for k in range(0, len(cases), shard):
+        rc, out = res[f"q{k // shard}"]
+        rows = [eval(o.replace(";", ","), {"__builtins__": {}}) for o in re.findall(r"=\s*(\[.*?\])\s*:\s*list \(list Z\)", out, flags=re.S)]  # noqa: S307
+        mine = cases[k:k + shard]
+        if rc or len(rows) != len(mine):
+            bad.append(f"rc={rc}, {len(rows)} results for {len(mine)} cases: {out[-300:]}")
+            continue
+        for (kind, a, _), (pl, dec), r in zip(mine, impl[k:k + shard], rows):
+            total += 1
+            m_pl = None if r == [[0]] else "".join(chr(z) for z in r[0])
+            m_dec = None if r == [[0]] else list(r[1])
+            if m_pl != pl or m_dec != dec:
+                bad.append(f"{kind}{a}: model payload {m_pl} decoded {m_dec}; implementation payload {pl} decoded {dec}")
+    ctx.obligation("correspondence:param-commands", not bad, "correspondence", f"{len(bad)} of {total} differ; first: {bad[0][:600]}" if bad else
+                   f"{total} argument combinations of set_dhw_params / set_mix_valve_params / put_sensor_temp / put_dhw_temp: payload or refusal, the decoder's verdict and values agree")
+
+
+def bind_commands(ctx: Ctx) -> None:
+    """put_bind (registered for I|1FC9 and W|1FC9): offers to nobody / to the sender itself / to the broadcast address, with and without an
+    OEM code; accepts; confirms with and without a code: phase and bindings as the ARGUMENTS call for."""
+    import itertools  # noqa: PLC0415
+
+    from ramses_tx import exceptions as exc  # noqa: PLC0415
+    from ramses_tx.command import CODE_API_MAP, Command  # noqa: PLC0415
+    from ramses_tx.message import Message  # noqa: PLC0415
+
+    srcs = ["04:189076", "32:123456", "07:045960"]
+    code_lists = [("2309",), ("2309", "30C9"), ("1298", "12A0", "2E10"), "1260", ("22F1", "1FC9"), None, [], ("1FC9",)]
+    jobs = []
+    for src, codes, dst, oem in itertools.product(srcs, code_lists, [None, "self", "63:262142"], [None, "67"]):
+        jobs.append(("offer", " I", src, codes, src if dst == "self" else dst, {"oem_code": oem} if oem else {}))
+    for src, codes, idx in itertools.product(srcs, code_lists, [None, "00", "01"]):
+        jobs.append(("accept", " W", "01:145038", codes, src, {"idx": idx} if idx else {}))
+        jobs.append(("confirm", " I", src, codes, "01:145038", {"idx": idx} if idx else {}))
+    jobs.append(("confirm", " I", srcs[0], None, "01:145038", {"idx": "21"}))
+    for phase, verb, src, codes, dst, kw in jobs:
+        klist = [] if not codes else ([codes] if isinstance(codes, str) else list(codes))
+        case = {"constructor": "put_bind", "args": repr((verb, src, codes, dst)), "kwargs": repr(kw)}
+        if phase == "offer":
+            offered = [c for c in klist if c not in ("1FC9", "10E0")]
+            want = ([["00", c, src] for c in offered] + ([[kw["oem_code"], "10E0", src]] if kw else []) + [["00", "1FC9", src]]) if offered else None
+        elif phase == "accept":
+            want = [[kw.get("idx") or "00", c, src] for c in klist] or None
+        else:
+            want = [[kw.get("idx") or "00", klist[0], src]] if klist else [[kw.get("idx") or "00"]]
+        try:
+            cmd = Command.put_bind(verb, src, codes, dst, **kw)
+        except (exc.CommandInvalid, AssertionError, ValueError, TypeError, KeyError) as err:
+            ctx.case(("put_bind", phase, src, repr(codes), dst, repr(kw)), False, f"refused:put_bind:{phase}")
+            if want is not None:
+                ctx.violation(f"in-domain-arguments-refused:put_bind:{phase}:{type(err).__name__}", f"put_bind{(verb, src, codes, dst)}{kw} raised {type(err).__name__}: {err}", case, "input")
+            continue
+        ctx.case(("put_bind", phase, src, repr(codes), dst, repr(kw)), True, f"built:put_bind:{phase}")
+        case["frame"] = str(cmd)
+        key = f"{cmd.verb}|{cmd.code}"
+        if cmd.code != "1FC9" or cmd.verb != verb or getattr(CODE_API_MAP.get(key), "__name__", None) != "put_bind":
+            ctx.violation("wrong-verb-or-code:put_bind", f"put_bind built {key}", case, "input")
+        try:
+            p = Message._from_cmd(cmd).payload
+        except Exception as err:  # noqa: BLE001
+            cls = "no-codes" if want is None else "codeless-idx-other-than-00-21" if phase == "confirm" and not klist and kw.get("idx") not in (None, "00", "21") else "in-domain"
+            ctx.violation(f"constructor-emits-undecodable-frame:put_bind:{phase}:{cls}", f"put_bind{(verb, src, codes, dst)}{kw} built {cmd} which the decoder rejects: {str(err)[:100]}", case, "input")
+            continue
+        if want is None:
+            ctx.violation(f"out-of-domain-arguments-accepted:put_bind:{phase}", f"put_bind{(verb, src, codes, dst)}{kw} (nothing to {phase}) built {cmd}", case, "input")
+        elif p.get("phase") != phase or p.get("bindings") != want:
+            ctx.violation(f"decoded-value-differs:put_bind:{phase}", f"put_bind{(verb, src, codes, dst)}{kw} -> {cmd}: decoded {p}, asked for {phase} {want}", {**case, "decoded": str(p)[:300]}, "input")
 
 
 def replay(case: dict) -> int:
